@@ -99,7 +99,7 @@ def r1_stale_derived(ctx, rep):
     dests = {d for d in cli_dests(py) if d in fields}
     pa = py.func("__init__.parse_arguments")
     pa_src = ast.unparse(pa)
-    config_loop = "setattr(proj_data, key, value)" in pa_src or "--config" in pa_src
+    config_loop = "tomllib.loads" in pa_src   # values of --config reach the settings object on some path
     # statements in parse_arguments that re-establish something after the merges
     merge_line = max([c.lineno for c in py.walk_calls(pa) if call_name(c) == "convert_types_from_commandarguments"] or [0])
     if not merge_line:
